@@ -135,7 +135,10 @@ def make_case(hs, pool, rng, simple=False):
             r['id'] = hs.Ref('r%d' % (i + 1)) if rng.random() < 0.6 else hs.Ref('r%d' % (i + 1), 'Row %d' % (i + 1))
         for tg in TAGS:
             u = rng.random()
-            if u < 0.12:
+            if u < 0.10:
+                continue
+            if u < 0.16:
+                r[tg] = None                 # a null cell (what the readers store for an empty cell): an absent tag
                 continue
             fam = fams[tg] if u < 0.88 else rng.choice(list(pool))
             r[tg] = rng.choice(pool[fam])
@@ -267,6 +270,17 @@ def fixed_cases(hs):
     out += [(f, rows) for f in ['notes', 'notes == "x"', 'not notes', 'order', 'order == 1', 'android', 'id and notes',
                                 'id and android', 'id or order', 'nothing', 'notes and order', 'not order', 'not  android',
                                 '(notes)', 'notes or android']]
+    # chains far longer than Python lets parentheses nest; null cells; kinds that Python compares and Haystack does not
+    rows = [{'id': R('r1'), 'a': 5.0, 'b': None}, {'id': R('r2'), 'a': 7.0, 'b': True}, {'id': R('r3'), 'a': None, 'b': 1.0},
+            {'id': R('r4'), 'a': Q(5.0, 'kW'), 'b': hs.Uri('x')}, {'id': R('r5'), 'a': 'x', 'b': 'x'},
+            {'id': R('r6'), 'b': hs.Bin('x')}, {'id': R('r7', 'Seven'), 'ref': R('r1', 'One'), 'a': False}]
+    for n in (60, 250, 600):
+        out.append((' or '.join('a == %d' % k for k in range(n)), rows))
+        out.append((' and '.join('a != %d' % (k + 100) for k in range(n)), rows))
+    out += [(f, rows) for f in ['a', 'not a', 'b', 'not b', 'a == 5', 'a != 5', 'a == 5kW', 'a != 5kW', 'a < 6', 'a < 6kW',
+                                'b == true', 'b == 1', 'b != 1', 'b < 2', 'b == "x"', 'b == `x`', 'b != "x"', 'b < "y"',
+                                'b < `y`', 'a == false', 'a == 0', 'ref == @r1', 'ref != @r1', 'id == @r7', 'ref->a == 5',
+                                'ref->b', 'not ref->b', 'a == N', 'b != N']]
     import datetime as _d
     import pytz as _p
     rows = [{'id': R('r1'), 'a': _p.utc.localize(_d.datetime(9999, 12, 31, 23, 59, 59))},
